@@ -34,7 +34,7 @@ def strip_type(c):
 
 def sig_of_diff(d):
     path, _, rest = d.partition(": ")
-    attrs = [p.split("[")[0] for p in path.split("/") if p and not p.startswith("http")]
+    attrs = [p.split("[")[0] for p in path.split("/") if re.fullmatch(r"[A-Za-z_]+(\[\d+\])*", p)]
     tail = "/".join(attrs[-2:])
     kind = "value-changed"
     if rest.endswith("!= None"):
@@ -46,8 +46,12 @@ def sig_of_diff(d):
     return f"C03:roundtrip:{tail}:{kind}"
 
 
+STREAM_KINDS = ("text", "binary", "path", "pathlib", "tmp-binary", "tmp-text", "spooled", "file-binary", "file-text")
+
+
 def oracle_store(store, how):
-    """write + strict read through one of the three stream kinds; returns None or a diff string / exception text"""
+    """write + strict read through one kind of destination/source; returns None or a diff string / exception text"""
+    import pathlib
     from basyx.aas.adapter.json import write_aas_json_file, read_aas_json_file
     before = strip_type(aasgen.canon_store(store))
     try:
@@ -61,12 +65,38 @@ def oracle_store(store, how):
             write_aas_json_file(buf, store)
             buf.seek(0)
             st2 = read_aas_json_file(buf, failsafe=False)
+        elif how in ("tmp-binary", "tmp-text", "spooled"):
+            # file proxies from tempfile: binary / text streams that are not io.* subclasses
+            if how == "tmp-binary":
+                f = tempfile.NamedTemporaryFile(prefix="verif-c03-")
+            elif how == "tmp-text":
+                f = tempfile.NamedTemporaryFile("w+", encoding="utf-8", prefix="verif-c03-")
+            else:
+                f = tempfile.SpooledTemporaryFile(max_size=64)
+            with f:
+                write_aas_json_file(f, store)
+                f.seek(0)
+                st2 = read_aas_json_file(f, failsafe=False)
         else:
             fd, path = tempfile.mkstemp(suffix=".json", prefix="verif-c03-")
             os.close(fd)
             try:
-                write_aas_json_file(path, store)
-                st2 = read_aas_json_file(path, failsafe=False)
+                if how == "path":
+                    write_aas_json_file(path, store)
+                    st2 = read_aas_json_file(path, failsafe=False)
+                elif how == "pathlib":
+                    write_aas_json_file(pathlib.Path(path), store)
+                    st2 = read_aas_json_file(pathlib.Path(path), failsafe=False)
+                elif how == "file-binary":
+                    with open(path, "wb") as f:
+                        write_aas_json_file(f, store)
+                    with open(path, "rb") as f:
+                        st2 = read_aas_json_file(f, failsafe=False)
+                else:
+                    with open(path, "w", encoding="utf-8") as f:
+                        write_aas_json_file(f, store)
+                    with open(path, "r", encoding="utf-8") as f:
+                        st2 = read_aas_json_file(f, failsafe=False)
             finally:
                 os.remove(path)
     except Exception as e:
@@ -136,7 +166,7 @@ def run(chk):
     # ---- oracle on whole stores (three stream kinds) and single objects
     store_terms = []
     for i in range(n_store):
-        how = ("text", "binary", "path")[i % 3]
+        how = STREAM_KINDS[i % len(STREAM_KINDS)]
         g = aasgen.Gen(rng, strings="json" if i % 2 else "plain", depth=3)
         try:
             store = g.store(rng.randint(1, 4))
@@ -159,7 +189,8 @@ def run(chk):
                 pass
         d = oracle_store(store, how)
         if d:
-            chk.fail(sig_of_diff(d), f"JSON {how} round trip of a generated store differs: {d}",
+            chk.fail(sig_of_diff(d) + (f":{how}" if d.startswith("/: raised") else ""),
+                     f"JSON {how} round trip of a generated store differs: {d}",
                      {"how": f"seed={chk.seed} store #{i} via {how}; re-run ./check C03", "diff": d,
                       "canon_before": strip_type(aasgen.canon_store(store))})
     # ---- correspondence of the interpreter + oracle on single objects
